@@ -1274,6 +1274,168 @@ def tokens_section(tier, seed, limits=False):
 
 
 # ---------------------------------------------------------------------------------------------
+# the reader (Spec/Reader.lean) against CPython's own parser, on subclass instances and call-style objects (C08 / C17 / C01)
+
+def rval_of_ast(text):
+    """what CPython's parser (ast) makes of a printed text, in the vocabulary of Spec/Reader.lean: numbers by their literal text,
+    calls as (call (name) item ...) with keyword items (kwarg (name) value); float('inf'), set(), frozenset(), frozenset([..])
+    have the readings the reader gives them"""
+    src = '(' + text + '\n)'
+    root = ast.parse(src, mode='eval').body
+
+    def cps(x):
+        return ' '.join(str(ord(c)) for c in x)
+
+    def dotted(n):
+        if isinstance(n, ast.Name):
+            return n.id
+        if isinstance(n, ast.Attribute):
+            return dotted(n.value) + '.' + n.attr
+        raise ValueError('callee')
+
+    def go(n):
+        if isinstance(n, ast.Constant):
+            v = n.value
+            if v is None or v is True or v is False:
+                return '(kw %s)' % cps(repr(v))
+            if v is Ellipsis:
+                return '(kw 46 46 46)'
+            if isinstance(v, (int, float)):
+                return '(num %s)' % cps(ast.get_source_segment(src, n))
+            if isinstance(v, str):
+                return ('(str 0 %s)' % cps(v)).replace(' )', ')')
+            if isinstance(v, bytes):
+                return ('(str 1 %s)' % ' '.join(str(b) for b in v)).replace(' )', ')')
+        if isinstance(n, ast.UnaryOp) and isinstance(n.op, ast.USub) and isinstance(n.operand, ast.Constant):
+            return '(num %s)' % cps(ast.get_source_segment(src, n))
+        if isinstance(n, (ast.List, ast.Tuple, ast.Set)):
+            tag = {ast.List: 'list', ast.Tuple: 'tuple', ast.Set: 'set'}[type(n)]
+            return '(%s%s)' % (tag, ''.join(' ' + go(x) for x in n.elts))
+        if isinstance(n, ast.Dict):
+            return '(dict%s)' % ''.join(' (%s %s)' % (go(k), go(x)) for k, x in zip(n.keys, n.values))
+        if isinstance(n, ast.Call):
+            name = dotted(n.func)
+            if name == 'float' and len(n.args) == 1 and not n.keywords and isinstance(n.args[0], ast.Constant) and isinstance(n.args[0].value, str):
+                return '(fs %s)' % cps(n.args[0].value)
+            if name == 'set' and not n.args and not n.keywords:
+                return '(set)'
+            if name == 'frozenset' and not n.keywords:
+                if not n.args:
+                    return '(fset)'
+                if len(n.args) == 1 and isinstance(n.args[0], ast.List):
+                    return '(fset%s)' % ''.join(' ' + go(x) for x in n.args[0].elts)
+            items = [go(a) for a in n.args] + ['(kwarg (%s) %s)' % (cps(k.arg), go(k.value)) for k in n.keywords]
+            return '(call (%s)%s)' % (cps(name), ''.join(' ' + i for i in items))
+        raise ValueError('outside the fragment: %s' % type(n).__name__)
+    return go(root)
+
+
+def contains_enum(v):
+    import enum
+    v = V.strip_comments(v) if isinstance(v, (P._CommentedValue, P._TrailingCommentedValue)) else v
+    if isinstance(v, enum.Enum):
+        return True
+    if isinstance(v, dict):
+        return any(contains_enum(k) or contains_enum(x) for k, x in v.items())
+    if isinstance(v, (list, tuple, set, frozenset)):
+        return any(contains_enum(x) for x in v)
+    d = getattr(v, '__verif_call__', None)
+    if d is not None:
+        c = d()
+        return any(contains_enum(a) for a in c.args) or any(contains_enum(x) for _, x in c.kwargs)
+    return False
+
+
+def reader_chunk(cases):
+    import sec_stdlib
+    from common import parse_sx as sx_parse
+    drv = _driver()
+    mism, fails = [], []
+    n = nt = unread = 0
+    for (value, sets) in cases:
+        sx = sec_stdlib.sx(value)
+        g = drv.ask('(ctoks %s %s)' % (sx, ' '.join(settings_sx(*st) for st in sets)))
+        try:
+            res = sx_parse(g)
+        except Exception:
+            res = None
+        if not res or res[0] != 'ok':
+            mism.append({'value': repr(value)[:300], 'value_sx': sx[:1500], 'model': g[:300], 'impl': 'ctoks request'})
+            continue
+        readings = set()
+        for st, r in zip(sets, res[1:]):
+            indent, width, ribbon, depth, msl, sort = st
+            n += 1
+            with warnings.catch_warnings():
+                warnings.simplefilter('ignore')
+                text = pp.pformat(value, indent=indent, width=width, depth=depth, ribbon_width=ribbon, max_seq_len=msl, sort_dict_keys=sort)
+            try:
+                want = sx_parse(rval_of_ast(text))
+            except Exception as e:
+                if len(fails) < 3:
+                    fails.append({'kind': 'output-outside-the-expression-fragment', 'why': '%s: %s' % (type(e).__name__, e), 'value': repr(value)[:300],
+                                  'settings': st, 'text': text[:400]})
+                break
+            readings.add(repr(want))
+            have = r[2][1]
+            if have == 'none':
+                unread += 1
+                mism.append({'kind': 'the reader of Spec/Reader.lean does not read the canonical tokens of a value of the fragment', 'value': repr(value)[:300],
+                             'value_sx': sx[:1500], 'settings': st, 'impl': repr(want)[:800], 'model': 'none'})
+                break
+            if have != want:
+                mism.append({'kind': 'reader(canonical tokens) differs from CPython ast of the implementation text', 'value': repr(value)[:300],
+                             'value_sx': sx[:1500], 'settings': st, 'impl': repr(want)[:800], 'model': repr(have)[:800]})
+                break
+        # the property: what the text denotes does not depend on the layout
+        if len(readings) > 1 and len(fails) < 3:
+            fails.append({'kind': 'syntax-tree-depends-on-layout', 'value': repr(value)[:300], 'readings': sorted(readings)[:2]})
+        nt += 1
+    return n, nt, mism, fails
+
+
+def reader_section(tier, seed, mode='all'):
+    """subclass instances (C08), call-style objects (C17) and built-in values (C01), nested in each other, with comments; limits off"""
+    import subclasses as S
+    rng = random.Random(seed * 43 + 29)
+    vals = []
+    k = 250 if tier == 'quick' else 2500
+    if mode in ('all', 'c08'):
+        vals += subclass_values(rng, k)
+    if mode in ('all', 'c17'):
+        vals += [rand_call(rng) for _ in range(k)]
+        vals += [[rand_call(rng), S.make(rng, list, [1, 'a'])] for _ in range(k // 5)]
+    if mode in ('all', 'c01'):
+        vals += [V.rand_value(rng, budget=rng.choice([3, 8, 20])) for _ in range(k)]
+    cases = []
+    for v in vals:
+        if contains_enum(v):
+            continue
+        if rng.random() < 0.3:
+            v2 = add_comments(rng, v, 0.2)
+            if not has_trailing_on_empty_dict_subclass(v2):      # K7
+                v = v2
+        sets = [(i, w, r, None, None, 0) for (i, w, r, _, _, _) in settings_for(rng, v, 'quick')[::2]]
+        cases.append((v, sets))
+    chunks = [cases[i:i + 25] for i in range(0, len(cases), 25)]
+    tot = nt = 0
+    mism, fails = [], []
+    with mp.Pool(min(NCPU, len(chunks))) as pool:
+        for n, t, mm, ff in pool.imap_unordered(reader_chunk, chunks):
+            tot += n
+            nt += t
+            mism.extend(mm)
+            fails.extend(ff)
+    stats = {'evaluations': tot, 'distinct_nontrivial': nt, 'values': len(cases), 'mismatches': len(mism),
+             'samples': [{'value': repr(cases[0][0])[:200]}, {'value': repr(cases[-1][0])[:200]}],
+             'rule': 'instances of the generated subclasses of the nine built-in bases, pretty_call objects with 0-3 positional / 0-2 keyword arguments and '
+                     'built-in value trees, nested in each other, 30% with comments, limits off, 5 layouts each: the reading of the canonical tokens by the '
+                     'reader of Spec/Reader.lean equals what CPython\'s ast makes of the implementation\'s text (calls with their callee, positional and keyword '
+                     'items in order; numbers by literal text), for every layout; non-trivial = values'}
+    return stats, mism, fails
+
+
+# ---------------------------------------------------------------------------------------------
 # comments on values whose printer is registered lazily by name, printed FIRST in a fresh interpreter (C09)
 
 FRESH_COMMENT = r'''
